@@ -61,8 +61,8 @@ register(Contract(
 ))
 
 IB_PARAMS = {'self': 'SCFG', 'new_name': 'name', 'predecessors': 'list[name]', 'successors': 'list[name]'}
-OB, NB = 'old.self.graph[predecessors[m]]', 'self.graph[predecessors[m]]'
-RR_ARGS = '(%s._jump_targets, %s._jump_targets, new_name, successors)' % (OB, NB)
+OB, NB = 'old.self.graph[p]', 'self.graph[p]'
+RR_ARGS = '(%s._jump_targets, %s._jump_targets, new_name, set(successors))' % (OB, NB)
 
 
 def insert_block_clauses(btype):
@@ -87,7 +87,7 @@ def insert_block_clauses(btype):
         'keys': KEYS,
     }
     for cn, body in per_pred_clauses().items():
-        ensures['pred-' + cn] = 'all(%s for m in range(len(predecessors)))' % body
+        ensures['pred-' + cn] = 'all(%s for p in predecessors)' % body
     return requires, ensures
 
 
@@ -109,12 +109,11 @@ def insert_block_loops():
     outer = {
         'dom': 'set(self.graph) == set(old.self.graph) | {new_name}',
         'new-block': 'self.graph[new_name] == block_type(name=new_name, _jump_targets=tuple(successors), backedges=())',
-        'untouched': 'all(self.graph[k] == old.self.graph[k] for k in old.self.graph'
-                     ' if not any(predecessors[m] == k for m in range(_i)))',
+        'untouched': 'all(self.graph[k] == old.self.graph[k] for k in old.self.graph if k not in _i_seen)',
         'keys': KEYS,
     }
     for cn, body in per_pred_clauses().items():
-        outer['pred-' + cn] = 'all(%s for m in range(_i))' % body
+        outer['pred-' + cn] = 'all(%s for p in _i_seen)' % body
     SD = '_j_seen'
     a = '(entry.jt, jt, new_name, %s)' % SD
     inner = {
@@ -127,12 +126,34 @@ def insert_block_loops():
     }
 
 
+CORE = ['dom', 'new-block', 'untouched', 'keys', 'block', 'distinct', 'pred-distinct']
+IB_HINTS = {}
+for _c in ('plain', 'branch', 'distinct', 'sub', 'kept', 'new', 'order', 'pos', 'append'):
+    IB_HINTS['pred-' + _c] = CORE + [_c, 'pred-' + _c]
+    IB_HINTS[_c] = CORE + [_c, 'sub', 'new'] + (['kept'] if _c in ('order', 'pos') else [])
+
+
+def insert_block_cuts():
+    a = '(old.self.graph[name]._jump_targets, jt, new_name, set(successors))'
+    return {'self.add_block(block.replace_jump_targets(': {
+        'block': 'block == old.self.graph[name]',
+        'sub': 'implies(len(successors) > 0, rr_sub%s)' % a,
+        'kept': 'implies(len(successors) > 0, rr_kept%s)' % a,
+        'new': 'implies(len(successors) > 0, rr_new%s)' % a,
+        'order': 'implies(len(successors) > 0, rr_order%s)' % a,
+        'pos': 'implies(len(successors) > 0, rr_pos%s)' % a,
+        'distinct': 'distinct(jt)',
+        'append': 'implies(len(successors) == 0, appended(old.self.graph[name]._jump_targets, jt, new_name))',
+    }}
+
+
 _req, _ens = insert_block_clauses('block_type')
 _req['synthetic-type'] = 'issubclass_synthetic(block_type)'
 register(Contract(
     qual=SC + ':SCFG.insert_block', params=dict(IB_PARAMS, block_type='cls'), modifies=['self.graph'],
     locals={'jt': 'list[name]'},
-    requires=_req, ensures=_ens, loops=insert_block_loops(),
+    requires=_req, ensures=_ens, loops=insert_block_loops(), cuts=insert_block_cuts(),
+    # hints=IB_HINTS,  (not needed since named sets/dicts made the VCs stable)
     # R3 (DESIGN 1): a predecessor with a declared back edge loses that arc; proved on the complement
     known={'R3': 'any(len(self.graph[p].backedges) != 0 for p in predecessors)'},
     properties=['C14', 'C05', 'C04'], gen='insert',
